@@ -142,8 +142,7 @@ def _(c):
     T = lambda x: x.a.self  # noqa: E731
     c.requires("wf", lambda x: wf(x.h0, T(x)))
     c.requires("node is a fresh, unattached node whose parent belongs to the tree", lambda x: And(x.h0.alloc(x.a.node), x.h0.inP(T(x), x.h0._parent(x.a.node)), x.a.node != x.h0._root(T(x)), x.h0._children(x.a.node) == LNONE,
-                                                                                                   L.cls_of(x.a.node) == If(L.cls_of(T(x)) == L.CLS["TypedTree"], L.CLS["TypedNode"], L.CLS["Node"]),
-                                                                                                   Implies(x.h0._tree(x.a.node) == T(x), Not(x.h0.ddom(x.h0._node_by_id(T(x)), x.h0._node_id(x.a.node))) == Not(x.h0.mem(T(x), x.a.node)))))
+                                                                                                   L.cls_of(x.a.node) == If(L.cls_of(T(x)) == L.CLS["TypedTree"], L.CLS["TypedNode"], L.CLS["Node"])))
 
     def clash(x):
         h0, n = x.h0, x.a.node
@@ -180,7 +179,9 @@ def _(c):
                And(Not(h0.lalloc(cl)), cl != LNONE, h.llen(cl) == 1, h.litem(cl, 0) == n)),
             # no member with this data_id shares the node's parent (C03: the insertion that follows keeps U)
             ForAll([m], Implies(And(h0.mem(Tr, m), h0._data_id(m) == did), h0._parent(m) != h0._parent(n)), patterns=[h0._data_id(m)]),
-            lists_same_except(x, [cl0, cl]), dicts_same_except(x, [nbi, nbd]), alloc_monotone(x),
+            lists_same_except(x, [cl]), dicts_same_except(x, [nbi, nbd]), alloc_monotone(x),
+            ForAll([m], h.rank(m) == If(m == n, h0.rank(h0._parent(n)) + 1, h0.rank(m)), patterns=[h.rank(m)]),
+            ForAll([m], Implies(m != n, h.cpos(m) == h0.cpos(m)), patterns=[h.cpos(m)]),
             ForAll([k], Implies(k != nid, h.dref(nbi, k) == h0.dref(nbi, k)), patterns=[h.dref(nbi, k)]),
             ForAll([k], Implies(k != did, h.dlst(nbd, k) == h0.dlst(nbd, k)), patterns=[h.dlst(nbd, k)]),
         )
@@ -196,3 +197,128 @@ def _(c):
 
     c.loop(1).invariant = inv
     c.loop(1).modifies = ()
+
+
+# ------------------------------------------------------------------ Node.__init__
+def init_id(x):
+    """C02: the explicit id the node was given, else the tree's callback / hash applied to its data."""
+    T = x.h0._tree(x.a.parent)
+    if x.a.tag("data_id") != "none":
+        return x.a.data_id
+    return calc_id(x.h0, T, x.a.data)
+
+
+def new_node_pre(x):
+    h0, s, p = x.h0, x.a.self, x.a.parent
+    T = h0._tree(p)
+    return And(wf(h0, T), h0.inP(T, p), h0.alloc(s), s != h0._root(T), Not(h0.mem(T, s)), s != p,
+               L.cls_of(s) == If(L.cls_of(T) == L.CLS["TypedTree"], L.CLS["TypedNode"], L.CLS["Node"]),
+               # a freshly allocated object: nobody refers to it yet
+               fa_ref_not_referenced(h0, T, s))
+
+
+def fa_ref_not_referenced(h, T, s):
+    p, i = L.fresh("p", L.Ref), L.fresh("i", L.I)
+    d = L.fresh("d", L.Val)
+    nbd = h._nodes_by_data_id(T)
+    return And(ForAll([p, i], Implies(And(h.inP(T, p), 0 <= i, i < h.clen(p)), h.child(p, i) != s), patterns=[h.litem(h._children(p), i)]),
+               ForAll([d, i], Implies(And(h.ddom(nbd, d), 0 <= i, i < h.llen(h.dlst(nbd, d))), h.litem(h.dlst(nbd, d), i) != s), patterns=[h.litem(h.dlst(nbd, d), i)]))
+
+
+def init_contract(c, typed: bool):
+    c.result_tag = "none"
+    c.modifies("_data", "_parent", "_tree", "_children", "_data_id", "_node_id", "_meta", "_kind", "ddom", "dref", "dlst", "dcard", "llen", "litem", "lalloc", "cpos", "rank")
+    c.requires("wf(tree of parent); self is a fresh object", new_node_pre)
+    c.requires("an explicit node_id is an int", lambda x: L.v_is_int(x.a.node_id) if x.a.tag("node_id") != "none" else True)
+    if typed:
+        c.requires("kind is given", lambda x: x.a.kind != VNONE)
+    Tof = lambda x: x.h0._tree(x.a.parent)  # noqa: E731
+
+    def others_unchanged(x):
+        return And(fields_same_except(x, NODE_FIELDS + TREE_FIELDS, [x.a.self]), lists_same_except(x, []), obs_dicts_unchanged(x))
+
+    def nid_of(x):
+        return x.a.node_id if x.a.tag("node_id") != "none" else z3.Function("py_id", L.Ref, L.Val)(x.a.self)
+
+    def bad_nid(x):
+        h0 = x.h0
+        nid = nid_of(x)
+        return Or(Not(And(nid != VNONE, L.v_truthy(nid))), h0.ddom(h0._node_by_id(Tof(x)), nid))
+
+    def clash(x):
+        h0, p = x.h0, x.a.parent
+        did = init_id(x)
+        i = L.fresh("i", L.I)
+        return Exists([i], And(0 <= i, i < h0.clen(p), h0._data_id(h0.child(p, i)) == did))
+
+    if typed:
+        c.raises("AssertionError", when=lambda x: Or(Not(L.v_is_str(x.a.kind)), x.a.kind == ANY_KIND, bad_nid(x)), ensures=others_unchanged, props=("C13",))
+    else:
+        c.raises("AssertionError", when=bad_nid, ensures=others_unchanged, props=("C13",))
+    c.raises("UniqueConstraintError", when=lambda x: And(Not(bad_nid(x)), clash(x), True if not typed else And(L.v_is_str(x.a.kind), x.a.kind != ANY_KIND)), ensures=lambda x: And(others_unchanged(x), wf(x.h, Tof(x))), props=("C03", "C13"))
+    c.may_raise("Exception", ensures=others_unchanged, props=("C13",), name="calc_data_id callback raises")
+
+    def post(x):
+        h0, h, s, p = x.h0, x.h, x.a.self, x.a.parent
+        T = Tof(x)
+        did = init_id(x)
+        nbi, nbd = h0._node_by_id(T), h0._nodes_by_data_id(T)
+        k = L.fresh("k", L.Val)
+        m = L.fresh("m", L.Ref)
+        cs = [
+            wf(h, T, pending=s), h.mem(T, s),
+            h._data(s) == x.a.data, h._parent(s) == p, h._tree(s) == T, h._children(s) == LNONE, h._data_id(s) == did, h._node_id(s) == nid_of(x),
+            h._meta(s) == (x.a.meta if x.a.tag("meta") != "none" else DNONE),
+            h.rank(s) == h0.rank(p) + 1,
+            fields_same_except(x, NODE_FIELDS + TREE_FIELDS, [s]),
+            ForAll([m], h.mem(T, m) == Or(h0.mem(T, m), m == s), patterns=[h.mem(T, m)]) if False else True,
+            ForAll([k], h.ddom(nbi, k) == Or(h0.ddom(nbi, k), k == h._node_id(s)), patterns=[h.ddom(nbi, k)]),
+            ForAll([k], Implies(k != h._node_id(s), h.dref(nbi, k) == h0.dref(nbi, k)), patterns=[h.dref(nbi, k)]),
+            h.dref(nbi, h._node_id(s)) == s,
+            h.dcard(nbi) == h0.dcard(nbi) + 1,
+            # child lists are untouched (the node is not inserted yet); no sibling carries its id
+            fa_childlists_same(x, T),
+            Not(clash(x)),
+            alloc_monotone(x), dicts_same_except(x, [nbi, nbd]),
+            ForAll([m], Implies(m != s, And(h.rank(m) == h0.rank(m), h.pos(m) == h0.pos(m))), patterns=[h.rank(m)]),
+        ]
+        if typed:
+            cs += [h._kind(s) == x.a.kind, L.v_is_str(x.a.kind), x.a.kind != ANY_KIND]
+        return And(*cs)
+
+    c.ensures("node initialised and registered (pending insertion); tree otherwise unchanged", post)
+
+
+def fa_childlists_same(x, T):
+    h0, h = x.h0, x.h
+    p, i = L.fresh("p", L.Ref), L.fresh("i", L.I)
+    return And(ForAll([p], Implies(h0.inP(T, p), And(h._children(p) == h0._children(p), h.clen(p) == h0.clen(p))), patterns=[h._children(p)]),
+               ForAll([p, i], Implies(And(h0.inP(T, p), 0 <= i, i < h0.clen(p)), h.child(p, i) == h0.child(p, i)), patterns=[h.litem(h._children(p), i)]))
+
+
+def obs_dicts_unchanged(x):
+    h0, h = x.h0, x.h
+    cs = []
+    d, k = L.fresh("d", L.DRef), L.fresh("k", L.Val)
+    if not z3.eq(h0.ddom, h.ddom):
+        cs.append(ForAll([d, k], h.ddom(d, k) == h0.ddom(d, k), patterns=[h.ddom(d, k)]))
+    for comp in ("dref", "dlst", "dval"):
+        if not z3.eq(h0.f(comp), h.f(comp)):
+            cs.append(ForAll([d, k], Implies(h0.ddom(d, k), h.f(comp)(d, k) == h0.f(comp)(d, k)), patterns=[h.f(comp)(d, k)]))
+    if not z3.eq(h0.dcard, h.dcard):
+        cs.append(ForAll([d], h.dcard(d) == h0.dcard(d), patterns=[h.dcard(d)]))
+    return And(*cs) if cs else z3.BoolVal(True)
+
+
+@contract(NQ + "__init__", props=("C01", "C02", "C03", "C13"))
+def _(c):
+    c.param("self", "node").param("data", "data").param("parent", "node").param("data_id", "none", "id").param("node_id", "none", "id").param("meta", "none", "dref")
+    c.families = ("plain",)
+    init_contract(c, typed=False)
+
+
+@contract("nutree.typed_tree.TypedNode.__init__", props=("C01", "C02", "C03", "C13"))
+def _(c):
+    c.param("self", "node").param("kind", "kind").param("data", "data").param("parent", "node").param("data_id", "none", "id").param("node_id", "none", "id").param("meta", "none", "dref")
+    c.families = ("typed",)
+    init_contract(c, typed=True)
